@@ -189,6 +189,8 @@ mod rule;
 mod solver;
 mod tokeniser;
 mod value;
+#[cfg(feature = "verif")]
+pub mod verif;
 mod yaml;
 
 #[cfg(feature = "core")]
